@@ -30,6 +30,20 @@ def build_simple(g):
         G.add_edges_from((max(u, v), min(u, v)) for u, v in reversed(g['edges']))
         G.name = 'nx simple graph (reversed insertion)'
         return G
+    if kind == 'cnfgen-grown':
+        # same graph, reached through growth: start small, raise the vertex count in one step,
+        # insert the edges in reverse order, exercise remove_edge on the way
+        n = g['n']
+        G = Graph(min(n, 1))
+        G.update_vertex_number(n)
+        es = list(reversed(g['edges']))
+        for i, (u, v) in enumerate(es):
+            G.add_edge(v, u)
+            if i == 0:
+                G.remove_edge(u, v)
+                list(G.edges())
+                G.add_edge(u, v)
+        return G
     G = Graph(g['n'])
     for u, v in g['edges']:
         G.add_edge(u, v)
@@ -62,6 +76,19 @@ def build_bipartite(g):
         G.name = 'nx bipartite graph (right side first)'
         return G
     B = BipartiteGraph(L, R)
+    if kind == 'cnfgen-inspected':
+        # same graph, but its views are read while it is only half built (lazy indexes must not go stale)
+        es = g['edges']
+        for u, v in es[:len(es) // 2]:
+            B.add_edge(u, v)
+        for v in range(1, R + 1):
+            B.left_neighbors(v), B.left_degree(v)
+        for u in range(1, L + 1):
+            B.right_neighbors(u)
+        list(B.edges())
+        for u, v in es[len(es) // 2:]:
+            B.add_edge(u, v)
+        return B
     for u, v in g['edges']:
         B.add_edge(u, v)
     return B
@@ -141,14 +168,14 @@ def _edge_subset(draw, P, max_edges=None):
 
 
 @st.composite
-def simple_graphs(draw, nmin=0, nmax=7, max_edges=None, kinds=('cnfgen', 'networkx', 'networkx-rev')):
+def simple_graphs(draw, nmin=0, nmax=7, max_edges=None, kinds=('cnfgen', 'networkx', 'networkx-rev', 'cnfgen-grown')):
     n = draw(st.integers(nmin, nmax))
     edges = _edge_subset(draw, all_pairs(n), max_edges)
     return {'n': n, 'edges': edges, 'as': draw(st.sampled_from(list(kinds)))}
 
 
 @st.composite
-def bipartite_graphs(draw, Lmin=0, Lmax=4, Rmin=0, Rmax=5, max_edges=None, kinds=('cnfgen', 'networkx', 'networkx-rl')):
+def bipartite_graphs(draw, Lmin=0, Lmax=4, Rmin=0, Rmax=5, max_edges=None, kinds=('cnfgen', 'networkx', 'networkx-rl', 'cnfgen-inspected')):
     L = draw(st.integers(Lmin, Lmax))
     R = draw(st.integers(Rmin, Rmax))
     P = [(u, v) for u in range(1, L + 1) for v in range(1, R + 1)]
